@@ -162,6 +162,24 @@ pub fn gen_scope(t: &mut Tape) -> ScopeCase {
                 let e = if inject && crate::engine::gen_version() >= 2 && !declared.is_empty() && t.flip() {
                     // v2: more leading dots than there are enclosing symbols, in front of a name that does exist
                     // in a shallower scope: still an unknown symbol by the rules
+                    let globals: Vec<String> = declared.iter().filter(|d| d.len() == 1).map(|d| d[0].clone()).collect();
+                    if !globals.is_empty() && t.chance(1, 2) {
+                        // a dotted path through a parent that is not declared, ending in the name of a global:
+                        // unknown, never bound to the global of that name
+                        fault = Some("undeclared-parent");
+                        let g = t.pick(&globals).clone();
+                        let path = match t.draw(4) {
+                            0 => format!("zzq.{}", g),
+                            1 => format!("{}.zzq.{}", t.pick(&globals), g),
+                            2 => format!(".zzq.{}", g),
+                            _ => {
+                                let target = t.pick(&declared).clone();
+                                format!("{}.zzq.{}", target.join("."), g)
+                            }
+                        };
+                        items.push(Item::Data { width: Some(32), elems: vec![E::Var(path)] });
+                        continue;
+                    }
                     fault = Some("too-many-dots");
                     let target = t.pick(&declared).clone();
                     let k = ctx.len() + 1 + t.draw(2) as usize;
